@@ -1,5 +1,6 @@
 import RawPanelVerif.Base.Wire
 import RawPanelVerif.Model.Mono
+import RawPanelVerif.Model.GoRunes
 import RawPanelVerif.Spec.TextSpec
 /-! Driver glue for `text.*` records (C20). -/
 namespace RawPanelVerif.Driver.Text
@@ -19,7 +20,11 @@ def renderCase (W H : Nat) (font : Int) (prop : Bool) (spacing : Nat) (h v cx cy
   let t := setCursor t cx cy
   renderText (c, t) s
 
-/-- `text.case font prop spacing h v cx cy dx dy W H str | sw lh A B C` -/
+def intList (xs : List Int) : String := if xs.isEmpty then "-" else ",".intercalate (xs.map toString)
+def parseIntList (s : String) : Option (List Int) := if s = "-" then some [] else (s.splitOn ",").mapM parseInt
+
+/-- `text.case font prop spacing h v cx cy dx dy W H str | sw lh lh1 segw segw1 A B C`
+`str` = the bytes of the Go string handed to `RenderText` / `StrWidth` (any bytes: UTF-8 or not) -/
 def step (cmd : String) (args : List String) (impl : String) : String :=
   match cmd, args with
   | "text.case", [font, prop, sp, h, v, cx, cy, dx, dy, W, H, str] =>
@@ -27,27 +32,27 @@ def step (cmd : String) (args : List String) (impl : String) : String :=
       let font ← parseInt font; let prop ← parseBool prop; let sp ← sp.toNat?
       let h ← parseInt h; let v ← parseInt v; let cx ← parseInt cx; let cy ← parseInt cy
       let dx ← parseInt dx; let dy ← parseInt dy; let W ← W.toNat?; let H ← H.toNat?
-      let s ← unhex str
-      let s := s.toList.map (·.toNat)
+      let raw ← unhex str
+      -- `for _, char := range str { … byte(char) … }`
+      let s := GoRunes.runeBytes (raw.toList.map (·.toNat))
       let (cA, tA) := renderCase W H font prop sp h v cx cy s
       let (cB, _) := renderCase W H font prop sp h v (cx + dx) (cy + dy) s
-      let (cC, _) := renderCase W H font prop sp 1 1 cx cy s
+      let (cC, tC) := renderCase W H font prop sp 1 1 cx cy s
       let sw := strWidth tA s
-      let lh := lineHeight tA
-      let model := s!"{sw} {lh} {hexOfBytes (toU8 cA)} {hexOfBytes (toU8 cB)} {hexOfBytes (toU8 cC)}"
+      let segs := lines s
+      let model := s!"{sw} {lineHeight tA} {lineHeight tC} {intList (segs.map (strWidth tA))} {intList (segs.map (strWidth tC))} {hexOfBytes (toU8 cA)} {hexOfBytes (toU8 cB)} {hexOfBytes (toU8 cC)}"
       match impl.splitOn " " with
-      | [isw, ilh, a, b, c] =>
-        match parseInt isw, parseInt ilh, unhex a, unhex b, unhex c with
-        | some isw, some ilh, some a, some b, some c =>
-          let glyphs := (s.filter (fun ch => ch ≠ 10 ∧ ch ≠ 13)).length
-          let k : Spec.Text.Case := { wib := (W + 7) / 8, H := H, cx := cx, cy := cy, dx := dx, dy := dy,
-                                      h := tA.tsH, v := tA.tsV, sw := isw, lh := ilh, spacing := sp % 256, glyphs := glyphs }
-          -- the box / translate / scale clauses are stated for strings without line feed
-          let hs := if s.contains 10 then "H1" else
-            match Spec.Text.check k a b c with | none => "H1" | some cl => s!"H0:{cl}"
-          let tag := s!"B:font{font}{if prop then "p" else "f"}"
+      | [_isw, ilh, ilh1, isegw, isegw1, a, b, c] =>
+        match parseInt ilh, parseInt ilh1, parseIntList isegw, parseIntList isegw1, unhex a, unhex b, unhex c with
+        | some ilh, some ilh1, some isegw, some isegw1, some a, some b, some c =>
+          let glyphs := (segs.map (fun l => (l.filter (fun ch => ch ≠ 13)).length)).foldl max 0
+          let k : Spec.Text.Case := { W := W, wib := (W + 7) / 8, H := H, cx := cx, cy := cy, dx := dx, dy := dy,
+                                      h := tA.tsH, v := tA.tsV, lh := ilh, lh1 := ilh1, segw := isegw, segw1 := isegw1,
+                                      spacing := sp % 256, glyphs := glyphs }
+          let hs := match Spec.Text.check k a b c with | none => "H1" | some cl => s!"H0:{cl}"
+          let tag := s!"B:font{font}{if prop then "p" else "f"} B:{if Spec.Text.unclipped k then "unclipped" else "clipped"} B:lines{min segs.length 3}"
           if impl = model then pure s!"EQ {hs} {tag}" else pure s!"NE {hs} {model} {tag}"
-        | _, _, _, _, _ => pure s!"NE H0:panic {model}"
+        | _, _, _, _, _, _, _ => pure s!"NE H0:panic {model}"
       | _ => pure s!"NE H0:panic {model}"
     r.getD "ERR bad-record"
   | _, _ => "ERR bad-record"
